@@ -69,7 +69,7 @@ except ImportError:            # pragma: no cover
     HAVE_PYWT = False
 
 PROPERTY = 'C18'
-BUDGET = {'quick': 600, 'thorough': 3000}
+BUDGET = {'quick': 1500, 'thorough': 3000}
 
 SIZES = (2, 3, 4, 5)
 DTYPES = ('float64', 'complex128', 'float32', 'complex64')
